@@ -40,6 +40,22 @@ Theorem C16_ext_embeds_ref : forall (s : list N) (ops : list sc_opx) (outs : lis
 Proof. exact session_ok_ext_embeds. Qed.
 Print Assumptions C16_ext_embeds_ref.
 
+(* one scanner, two inputs (the M lines of the harness): Reset onto [s2] from ANY extended state [x] --
+   whatever the first session did, a reader handed out and read in part included -- is followed by
+   the session of a new scanner on [s2] *)
+Theorem C16_sessions_ext_reuse : forall (s2 : list N) (x : ext) (ops : list sc_ope),
+  exists outs, run_ext s2 x (EOp XReset :: ops) = EROut XRReset :: outs /\
+               session_ok_ext s2 ops outs = true /\ ~ In (EROut XRPanic) outs.
+Proof. exact session_ext_reuse. Qed.
+Print Assumptions C16_sessions_ext_reuse.
+
+Example C16_sessions_ext_reuse_ex :   (* a b: Next, Rest+0 bytes; Reset onto  c d: 1 more byte (no reader), Next, Rest+1, Rest *)
+  let x := match snd (run_ext_st [97; 32; 98] (new_ext [97; 32; 98]) [EOp XNext; ERestPart 0]) with Some x => x | None => new_ext [] end in
+  inp (esc x) = [98] /\ ehave x = true /\
+  run_ext [99; 32; 100] x [EOp XReset; EReadMore 1; EOp XNext; ERestPart 1; EOp XRest]
+  = [EROut XRReset; ERMore []; EROut (XRNext true [99] true); ERPart [100]; EROut (XRRest [])].
+Proof. vm_compute. repeat split. Qed.
+
 (* a b c  with  Next, Rest+1 byte, Text, Next, 1 more byte, Rest+0 bytes, Err, Split, Rest (all), Rest,
    Reset, 1 more byte (no reader any more), Next *)
 Example C16_sessions_ext_ex :
